@@ -37,7 +37,10 @@ def mk_streamers(spec):
 def mk_operand(sym, k, kind):
     """'ptr': an arbitrary SSA pointer; 'const': the result of an index constant with a symbolic value (0 => zero pattern)"""
     if kind == "ptr":
-        return mk_opresult(sym.int(f"ptr{k}", 0), IndexType()) if not SYMBOLIC else mk_ident_value(1000 + k)
+        return mk_opresult(sym.int(f"ptr{k}", 0), IndexType())  # an op RESULT in both executions (the code asks isinstance(.., OpResult))
+    if kind == "barg":
+        # a pointer that is a BLOCK ARGUMENT (function argument), not the result of an op
+        return Block(arg_types=[IndexType()]).args[0]
     return arith.ConstantOp.from_int_and_width(sym.int(f"cst{k}", 0, 1), IndexType()).result
 
 
@@ -130,6 +133,11 @@ def _streamer_shapes():
     for spec in multi:
         for short in (False, True):
             out.append(dict(spec=spec, operands=["ptr"] + ["const"] * (len(spec) - 1), short=short))
+    # a (possibly zero) constant operand FOLLOWED by pointers - op results and block arguments: each stream's zero-pattern
+    # decision is its own
+    for spec in (multi[1], multi[2], multi[5]):
+        out.append(dict(spec=spec, operands=["const"] + ["barg"] * (len(spec) - 1), short=False))
+        out.append(dict(spec=spec, operands=["const", "ptr"] + ["barg"] * (len(spec) - 2), short=False))
     return out
 
 
@@ -345,7 +353,9 @@ def pack_fields(vals_offs, w=32):
     return r
 
 
-GEMMX_KERNELS = ("mac_i32", "qmac_i32", "mac_i8_plain", "mac_i8_rescale1", "mac_i8_rescaleN", "qmac_i8_rescale2N", "rescale_only")
+# qmac_i32_zpswap: the dart.generic lists the two zero points in the other order (.., zp_rhs, zp_lhs) and the kernel.qmac binds them
+# accordingly: which value is the LEFT zero point is what the kernel says, not the position in the input list
+GEMMX_KERNELS = ("mac_i32", "qmac_i32", "qmac_i32_zpswap", "mac_i8_plain", "mac_i8_rescale1", "mac_i8_rescaleN", "qmac_i8_rescale2N", "rescale_only")
 
 
 @contract
@@ -383,12 +393,15 @@ class GEMMX_setup_vals_match_fields:
             out_val = g.outputs[0]
         else:
             blk = Block(arg_types=[i8, i8, i32, i32])
-            if kind.startswith("qmac"):
+            swap = kind.endswith("zpswap")
+            if swap:
+                kop = kernel.QMacOp.create(operands=[blk.args[0], blk.args[1], blk.args[3], blk.args[2]], result_types=[i32])
+            elif kind.startswith("qmac"):
                 kop = kernel.QMacOp.create(operands=[blk.args[0], blk.args[1], blk.args[2], blk.args[3]], result_types=[i32])
             else:
                 kop = kernel.MacOp.create(operands=[blk.args[0], blk.args[1]], result_types=[i32])
             blk.add_op(kop)
-            g = dart.GenericOp([x8, x8, zp_a, zp_b], Region([blk]), None, None, [stream32])
+            g = dart.GenericOp([x8, x8, zp_b, zp_a] if swap else [x8, x8, zp_a, zp_b], Region([blk]), None, None, [stream32])
             body_ops = [g]
             out_val = g.outputs[0]
             if "rescale" in kind:
